@@ -108,3 +108,14 @@ pub mod rt {
         core::mem::forget(k); r
     }
 }
+
+// ---- C07: Ed25519 -> X25519 key conversions
+pub mod conv {
+    use crate::SigningKey;
+    use curve25519_dalek::scalar::Scalar;
+    #[inline(never)] pub fn vp_ed_to_x25519(seed: &[u8; 32], scalar_bytes: &mut [u8; 32], scalar: &mut Scalar, mont: &mut [u8; 32]) {
+        let k = SigningKey::from_bytes(seed);
+        *scalar_bytes = k.to_scalar_bytes(); *scalar = k.to_scalar(); *mont = k.verifying_key().to_montgomery().to_bytes();
+        core::mem::forget(k);
+    }
+}
